@@ -116,23 +116,22 @@ theorem uexecute_add {d : Doc} {tw : Ticket → Bool} {ts : Ticket} (hd : d p = 
   rfl
 
 theorem doChange_add {d1 : Doc} {r : UOp} {ts : Ticket}
-    (he : uexecute h.doc h.tw .loc (.add p prev (UVal.ofVal v ts) ts) = .ok (d1, some r)) :
+    (he : uexecute h.doc noTw .loc (.add p prev (UVal.ofVal v ts) ts) = .ok (d1, some r)) :
     doChange h [.add p prev (UVal.ofVal v ts) ts] =
       { h with doc := d1, undo := push h.undo [r], redo := [], lamport := h.lamport + 1 } := by
-  have htwin : twinIds (UOp.add p prev (UVal.ofVal v ts) ts) = [] := rfl
-  simp only [doChange, List.isEmpty_cons, Bool.false_eq_true, if_false, runOps, he, htwin,
-    addTwins_nil, List.nil_append, Option.toList_some, reconcileSets, List.reverse_cons,
-    List.reverse_nil]
+  have hrs : reconcileSets h [UOp.add p prev (UVal.ofVal v ts) ts] = h := rfl
+  simp only [doChange_eq, List.isEmpty_cons, Bool.false_eq_true, if_false, runOps_cons, runOps_nil, he,
+    List.nil_append, Option.toList_some, hrs, List.reverse_cons, List.reverse_nil]
 
 theorem undo_do_insert_lemma (fr : Fresh h) (hd : h.doc p = some pe) (hb : pe.body = .arr nodes moved)
-    (horph : orphaned h.doc h.tw orphanFuel p = false)
+    (horph : orphaned h.doc noTw orphanFuel p = false)
     (hins : insertAfter prev ⟨h.next, some h.next⟩ nodes = some nodes') (fuel : Nat) :
     marshal (undo (doChange h [.add p prev (UVal.ofVal v h.next) h.next])).doc fuel rootId =
       marshal h.doc fuel rootId := by
   obtain ⟨H, w⟩ := fr.wf
   obtain ⟨hfresh, htw⟩ := fresh_next fr
   have hpts : p ≠ h.next := by intro hx; rw [hx, hfresh] at hd; cases hd
-  have he1 := uexecute_add (v := v) (tw := h.tw) hd hb hins
+  have he1 := uexecute_add (v := v) (tw := noTw) hd hb hins
   rw [doChange_add he1]
   -- the state after the insertion
   generalize hd1 : addRes h.doc p pe nodes' moved v h.next = d1 at he1 ⊢
@@ -145,18 +144,18 @@ theorem undo_do_insert_lemma (fr : Fresh h) (hd : h.doc p = some pe) (hb : pe.bo
   have hnew : (⟨h.next, some h.next⟩ : PosNode) ∈ nodes' := (mem_insertAfter hins).2 (Or.inl rfl)
   have hholds : holds nodes' h.next = true := holds_iff.2 ⟨_, hnew, rfl⟩
   -- the undo executes `remove p ts`
-  have horph1 : orphaned d1 h.tw orphanFuel h.next = false := by
+  have horph1 : orphaned d1 noTw orphanFuel h.next = false := by
     have hagree : ∀ t e, h.doc t = some e → ∃ e1, d1 t = some e1 ∧ e1.removed = e.removed ∧ e1.parent = e.parent := by
       intro t e hte
       by_cases h1 : t = p
       · subst h1; rw [hd] at hte; injection hte with hte; subst hte; exact ⟨_, hd1p, rfl, rfl⟩
       · have h2 : t ≠ h.next := by intro hx; rw [hx, hfresh] at hte; cases hte
         exact ⟨e, by rw [hd1o t h1 h2]; exact hte, rfl, rfl⟩
-    have h63 : orphaned d1 h.tw 63 p = false := by
+    have h63 : orphaned d1 noTw 63 p = false := by
       rw [orphaned_ext w hagree 63 p (by simp [hd])]; exact orphaned_mono _ _ 63 p horph
     rw [show orphanFuel = 63 + 1 from rfl, orphaned_succ_some hd1t rfl, htw, h63]; rfl
   obtain ⟨pv, hpv, _⟩ := findPrev_ok (d := d1) hholds
-  have he2 : ∃ q, uexecute d1 h.tw .undoRedo (.remove p h.next ⟨h.lamport + 1 + 1, 1, h.actor⟩) =
+  have he2 : ∃ q, uexecute d1 noTw .undoRedo (.remove p h.next ⟨h.lamport + 1 + 1, 1, h.actor⟩) =
       .ok (markRemoved d1 h.next ⟨h.lamport + 1 + 1, 1, h.actor⟩, some q) := by
     have hcont : isContainer d1 p = true := by simp [isContainer, hd1p]
     have hcap : ∃ cv, capture d1 h.next = some cv := by simp [capture, hd1t]
@@ -511,14 +510,13 @@ structure ArrDel (h : Hist) (p u : Ticket) (pe ue : Elem) (nodes : List PosNode)
   hposL : ∀ n ∈ nodes, n.pos.lamport ≤ h.lamport
 
 theorem undo_one_add {h : Hist} {p pv ts0 : Ticket} {cv : UVal} {rest : List (List UOp)} {d' : Doc} {q : UOp}
-    (hu : h.undo = [.add p pv cv ts0] :: rest) (hsub : cv.sub = [])
-    (he : uexecute h.doc h.tw .undoRedo (.add p pv (cv.reid h.next) h.next) = .ok (d', some q)) :
+    (hu : h.undo = [.add p pv cv ts0] :: rest)
+    (he : uexecute h.doc noTw .undoRedo (.add p pv (cv.reid h.next) h.next) = .ok (d', some q)) :
     (undo h).doc = d' := by
   unfold Hist.next at he
-  have htwin : twinIds (UOp.add p pv (cv.reid ⟨h.lamport + 1, 1, h.actor⟩) ⟨h.lamport + 1, 1, h.actor⟩) = [] := by
-    simp [twinIds, UVal.reid, hsub]
-  simp only [undo, undoRedo, hu, if_true, List.isEmpty_cons, Bool.false_eq_true, if_false, reticket, Hist.reconcile,
-    runOps, he, htwin, addTwins_nil, List.nil_append, Option.toList_some, List.reverse_cons, List.reverse_nil]
+  simp only [undo, undoRedo_eq, hu, if_true, List.isEmpty_cons, Bool.false_eq_true, if_false, reticket_single,
+    Hist.reconcile_eq, runOps_cons, runOps_nil, he, List.nil_append, Option.toList_some, List.reverse_cons,
+    List.reverse_nil]
 
 theorem undo_do_array_delete_lemma {h : Hist} {p u : Ticket} {pe ue : Elem} {nodes : List PosNode}
     {moved : Ticket → Option Ticket} (fr : Fresh h) (a : ArrDel h p u pe ue nodes moved) (fuel : Nat) :
@@ -535,7 +533,7 @@ theorem undo_do_array_delete_lemma {h : Hist} {p u : Ticket} {pe ue : Elem} {nod
   have hupar : ue.parent = some p := (w.par _ _ hu).trans hparu
   have hpu : p ≠ u := by intro hx; subst hx; rw [hd] at hu; injection hu with hu; subst hu; simp [hb, leafBody] at hul
   -- the forward removal
-  have he1 : uexecute h.doc h.tw .loc (.remove p u h.next) =
+  have he1 : uexecute h.doc noTw .loc (.remove p u h.next) =
       .ok (kill h.doc (some u), some (.add p (prevLive h.doc pre.reverse)
         { id := u, removed := false, body := ue.body, sub := [] } h.next)) := by
     have hcont : isContainer h.doc p = true := by simp [isContainer, hd, hb]
@@ -612,7 +610,7 @@ theorem undo_do_array_delete_lemma {h : Hist} {p u : Ticket} {pe ue : Elem} {nod
       have : ¬ u = t' := fun hx => hfresh' ue (hx ▸ hu)
       simp [g2, hnu, this])
     (by simp [g2])
-  have he2 : uexecute (kill h.doc (some u)) h.tw .undoRedo
+  have he2 : uexecute (kill h.doc (some u)) noTw .undoRedo
       (.add p (prevLive h.doc pre.reverse) (UVal.reid { id := u, removed := false, body := ue.body, sub := [] } t') t') =
       .ok (d2.set p { pe with body := .arr nodes2 moved }, some (.remove p t' t')) := by
     have happ : applyAddU (kill h.doc (some u)) p (prevLive h.doc pre.reverse)
@@ -626,7 +624,7 @@ theorem undo_do_array_delete_lemma {h : Hist} {p u : Ticket} {pe ue : Elem} {nod
     simp only [UVal.reid] at happ
     rw [happ]
     rfl
-  rw [undo_one_add (cv := { id := u, removed := false, body := ue.body, sub := [] }) (push_eq _ _) rfl
+  rw [undo_one_add (cv := { id := u, removed := false, body := ue.body, sub := [] }) (push_eq _ _)
     (by rw [← ht'] at he2; exact he2)]
   -- printing up to the renaming u ↦ t'
   have hroot : rootId ≠ u := by
